@@ -11,6 +11,7 @@ import (
 	"os"
 	"sort"
 	"strings"
+	"time"
 
 	hg "github.com/mosaicnetworks/babble/src/hashgraph"
 	"verifharness/hx"
@@ -108,6 +109,7 @@ func (h *hist) feed(name string, id int, order []int, store hg.Store, batch int,
 		}
 		return nd.Hg.ProcessDecidedRounds()
 	}
+	feedStart := time.Now()
 	for i, eid := range order {
 		ev := copyEvent(w.EvByEid[eid])
 		var err error
@@ -123,6 +125,11 @@ func (h *hist) feed(name string, id int, order []int, store hg.Store, batch int,
 				fmt.Fprintf(w.Out, "P %d\n", id)
 				err = passes()
 			}
+		}
+		if err == nil && small && time.Since(feedStart) > 40*time.Second {
+			// far below the working set the memoisation of round() is lost and a pass takes exponential time: same treatment
+			err = fmt.Errorf("small-cache run abandoned after %v", time.Since(feedStart).Round(time.Second))
+			h.actions["dag-small-cache-abandoned-slow"]++
 		}
 		if err != nil && small {
 			h.actions["dag-small-cache-below-window"]++
@@ -329,7 +336,7 @@ func (h *hist) dagrun(thorough bool) {
 	// (RollingIndex, size = cache size) roll over, and the halves of an odd window are not equal
 	// (only when that size is still large: with a cache far below the working set the memoisation of round() is lost
 	// and a pass takes exponential time)
-	if per := len(ids) / len(h.genesis); per >= 80 {
+	if per := len(ids) / len(h.genesis); per >= 80 && len(h.genesis) <= 3 {
 		cs := (4 * per / 5) | 1
 		smallSizes = append(smallSizes, cs)
 		h.actions["dag-badger-odd-cache-runs"]++
